@@ -585,6 +585,27 @@ SEEDS = [
     dict(id='SZ3-seg-ctor-one-list-short', props=['C10'], file='src/seg/tree.rs',
          old="""            chunks: vec![Chunk::new(); count],""",
          new="""            chunks: vec![Chunk::new(); count - 1],""", note='the constructor allocates one list fewer than the layout counts (the tests never touch the last bucket of a domain)'),
+    dict(id='FR1-map-insert-new-keeps-left', props=['C02', 'C04'], file='src/map/tree.rs',
+         old="""        new_node.parent = p_index;
+        new_node.left = EMPTY_REF;
+        new_node.right = EMPTY_REF;
+        new_node.color = Color::Red;""",
+         new="""        new_node.parent = p_index;
+        new_node.right = EMPTY_REF;
+        new_node.color = Color::Red;""", note='a recycled slot keeps the left link of its previous life (the map tests only delete the entry inserted last, whose links are empty)'),
+    dict(id='DR1-key-expire-root-drops-last-node', props=['C11'], file='src/key/tree.rs',
+         old="""                return index;
+            }
+            self.delete_index(index);
+            index = self.root;""",
+         new="""                return index;
+            }
+            if node.left == EMPTY_REF && node.right == EMPTY_REF {
+                self.root = EMPTY_REF;
+                return EMPTY_REF;
+            }
+            self.delete_index(index);
+            index = self.root;""", note='the last expired entry is cut off without being released: one slot lost each time the tree runs empty through expiry'),
     dict(id='PG1-key-expire-root-no-removal', props=['C10'], file='src/key/tree.rs',
          old="""                return index;
             }
